@@ -169,6 +169,11 @@ func run(c Case) (v *vcore.Violation, stt stats) {
 			x := l[ev.Which%len(l)]
 			id, ok := txKey(x)
 			if !ok {
+				for _, e := range st.Srv.VerifTxTable() {
+					if e.Addr == st.Sock(x.sock).Addr.String() && e.Seq&0xffffff == x.seq {
+						return vcore.Violatef("retrans-differs", "event %d: the bytes kept for retransmitting request seq %d (%x) differ from the datagram that was sent (%x)", i, x.seq, e.Bytes, x.b), stt
+					}
+				}
 				return vcore.Violatef("lost-bookkeeping", "event %d: outstanding request (sock %d seq %d) vanished from the transmit table", i, x.sock, x.seq), stt
 			}
 			snapB := st.Srv.VerifSnapshot()
